@@ -47,8 +47,8 @@ def c01_runs(tier):
     r = []
     r += per_method('fd', ms, ['fd.in-handler-ran', 'fd.out-handler-ran'], K=2, R=2, acts=A_UNREG | A_REG, A=2,
                     L=2 if q else 3, symtruth=0, wr=1, patterns=2, order=1)
-    r += per_method('fd.err-only', [0, 1], ['fd.err-handler-ran'], K=1 if q else 2, R=3, acts=A_UNREG | A_SETH | A_REG,
-                    A=2, L=2, symtruth=2, patterns=5)
+    r += per_method('fd.err-only', [0, 1] if q else [0, 1, 2, 3], ['fd.err-handler-ran'], K=1, R=3 if q else 4,
+                    acts=A_UNREG | A_SETH | A_REG, A=2, L=2 if q else 3, symtruth=2, patterns=5)
     r += per_method('timer', [0] if q else [0, 3], ['timer.handler-ran'], K=0, T=3, R=2, acts=A_TIMER, A=2,
                     L=2 if q else 3, symtruth=0, symtime=4)
     r += per_method('task', [1] if q else [1, 2], ['task.handler-ran'], K=0, J=3, R=2, acts=A_TASK, A=2,
@@ -103,7 +103,7 @@ def c03_runs(tier):
     r = per_method('reuse', [0, 3] if q else [0, 1, 2, 3], cv, K=2, R=2, acts=A_UNREG | A_REG, A=2, L=2,
                    symtruth=1 if q else 2, patterns=2)
     r += per_method('reuse.huperr', [1, 2] if q else [0, 1, 2, 3], cv + ['fd.err-handler-ran'], K=1, R=3,
-                    acts=A_UNREG | A_REG, A=2, L=2 if q else 3, symtruth=2, patterns=2)
+                    acts=A_UNREG | A_REG, A=2, L=2 if q else 3, symtruth=2, patterns=5)
     # a registration attempt that fails (descriptor number closed at that moment, reused afterwards)
     r += per_method('try-fails', [1, 2, 3] if q else [0, 1, 2, 3], ['C07.register_try-fails', 'fd.in-handler-ran'],
                     K=2, R=2, acts=A_UNREG | A_TRY, A=2, L=2, symtruth=1, patterns=2, faults=1)
@@ -121,7 +121,9 @@ def timerfd_task(tier):
     # timers x descriptors x tasks: the timeout has moved into the timer descriptor (>= 5 sleeps on the same
     # earliest timer), then a task is registered and keeps the loop on zero-timeout polls while time passes
     return per_method('timerfd+task', [0], ['C04.timerfd-armed', 'task.handler-ran', 'timer.handler-ran'], K=1, T=2,
-                      J=1, R=9, acts=A_TASK, A=1, L=2, symtruth=0, symtime=2, patterns=1, jreg=0)
+                      J=1, R=9, acts=A_TASK, A=1, L=2, symtruth=0, symtime=2, patterns=1, jreg=0) + \
+        per_method('timerfd+unreg', [0], ['C04.timerfd-armed', 'timer.handler-ran'], K=1, T=1, R=8, acts=A_TIMER,
+                   A=1, L=2, symtruth=0, symtime=2, patterns=1)
 
 
 def c04_runs(tier):
@@ -151,11 +153,17 @@ def c06_runs(tier):
     nofd = per_method('tasks.no-fd', [0, 1, 3] if q else [0, 1, 2, 3],
                       ['task.handler-ran', 'C06.deferred-reregistration-observed', 'timer.handler-ran'],
                       K=0, T=1, J=2, R=3, acts=A_TASK, A=2, L=3, symtruth=0)
+    # a task that re-registers itself round after round: the zero timeout repeats often enough for the
+    # repeated-deadline optimisation to engage on it
+    nofd += per_method('task-chain', [0] if q else [0, 1], ['task.handler-ran', 'C06.deferred-reregistration-observed'],
+                       K=0, T=0, J=1, R=9, acts=A_TASK, A=1, L=9, symtruth=0)
+    nofd += per_method('tasks.any-epoch', [1], ['task.handler-ran', 'C06.deferred-reregistration-observed'],
+                       K=0, T=1, J=2, R=3, acts=A_TASK, A=2, L=3, symtruth=0, symepoch=1)
     return nofd + per_method('tasks', [0, 2] if q else [0, 1, 2, 3],
                       ['task.handler-ran', 'C06.deferred-reregistration-observed', 'timer.handler-ran',
                        'fd.in-handler-ran'],
                       K=1, T=1, J=2 if q else 3, R=3, acts=A_TASK, A=2, L=3 if q else 4, symtruth=0, patterns=1) + \
-        timerfd_task(tier)
+        timerfd_task(tier)[:1]
 
 
 def c07_runs(tier):
@@ -199,6 +207,11 @@ def c05_runs(tier):
         x['max_split'] = 3
         r.append(x)
     r[-1]['covers'] = r[-1]['covers'] + ['C05.radix-level-removed']
+    # arbitrary expiry values: keys up to 2^40 seconds (sentinel "never" timers, differences beyond 2^63 ns)
+    for N in ([3, 7] if q else [3, 7, 12]):
+        r.append(timers_run('step.farkeys.N%d' % N, covers=['C05.step-register', 'C05.step-unregister'], mode=1, N=N,
+                            sym=3, farkeys=1))
+    r.append(timers_run('hist.farkeys', covers=['C05.history-fired-in-order'], mode=0, L=4 if q else 5, sym=3, farkeys=1))
     # timers registered/unregistered from descriptor handlers while the loop's kernel-timer
     # optimisation is engaged (independence of timers from each other through the main loop)
     r += per_method('loop.timerfd-cycle', [0], ['C04.timerfd-armed', 'timer.handler-ran'], K=1, T=2, R=8,
@@ -282,6 +295,10 @@ def c08_runs(tier, hb=0):
     r.append(mt_run('owner-activity.raw', 'harness/event.c', cv + ['event.owner-posts-from-handler'],
                     preempt=3, E=2, P=1, Q=2, method=2, owner=1, ops=2, selfpost=1, hb=hb))
     r.append(mt_run('pipe-transport', 'harness/event.c', cv, preempt=3, E=2, P=2, Q=1, method=3, noeventfd=1, hb=hb))
+    # descriptors of the owner registered before its first event come and go (poll-table bookkeeping)
+    for m, nm in ((2, 'ppoll'), (3, 'poll'), (1, 'epoll')):
+        r.append(mt_run('owner-fds-come-and-go.' + nm, 'harness/event.c', cv + ['event.owner-unregisters-a-descriptor'],
+                        preempt=1 if q else 2, E=1, P=1, Q=1, method=m, twofds=1, hb=hb))
     # the owner posts and unregisters a still-pending event before its loop runs; a poster posts behind it
     for m, nm in ((1, 'epoll'), (2, 'raw')):
         r.append(mt_run('owner-pre-ops.' + nm, 'harness/event.c', cv + ['event.unregister-while-pending'],
@@ -302,6 +319,9 @@ def c09_runs(tier, hb=0):
                          'env.signal-delivered-at-syscall-boundary'],
                         preempt=3, R=1, T=1, N=1, S=2, cfg=cfg, ownerpost=1, hb=hb))
     r.append(mt_run('two-events.poll', 'harness/eventraw.c', cv, preempt=3, R=2, T=2, N=2, cfg=0, method=3, hb=hb))
+    r.append(mt_run('registered-again', 'harness/eventraw.c',
+                    ['raw.reregistered', 'raw.reregistered-after-eventfd-disappeared', 'raw.handler-ran', 'env.pipe-full'],
+                    preempt=2, R=1, T=1, N=3, cfg=0, rereg=1, pipecap=2, hposts=1, hb=hb))
     # bursts of any size against the real buffer sizes of the code: the number of bytes pending in a
     # 64 KiB pipe (and in a pipe exactly as large as the handler's read buffer) is a solver unknown
     r.append(mt_run('burst.unknown-size.pipe64k', 'harness/eventraw.c', ['raw.symbolic-burst', 'raw.handler-ran'],
@@ -328,6 +348,10 @@ def c10_runs(tier, hb=0):
                 I=2, T=1, D=1, forkchild=1, hb=hb),
          mt_run('fork-child.poll', h, ['signal.child-does-not-trigger-parent', 'signal.child-registers-own-interest'],
                 preempt=0, I=2, T=1, D=1, forkchild=1, poll=1, nflags=4, hb=hb),
+         # population: seven shared interests registered in every order, one delivery reaches all of them
+         mt_run('seven-interests.all-orders', h, ['signal.registration-order-permuted', 'signal.fan-out-to-several',
+                                                  'signal.quiescent'],
+                preempt=0, I=7, T=1, D=1, nflags=1, unreg=0, permute=1, hb=hb),
          mt_run('concurrent-forks', h, ['signal.concurrent-forks', 'signal.handler-ran', 'signal.quiescent'],
                 preempt=2, I=1, T=1, D=1, forkers=1, nflags=1, unreg=0, hb=hb)]
     if not q:
@@ -352,6 +376,12 @@ def c11_runs(tier, hb=0):
                 ['wait.reaper-is-another-thread', 'wait.termination-delivered', 'wait.unregister-other-in-handler',
                  'wait.batch-of-several-statuses'],
                 preempt=1, C=3, strangers=0, events=2 if q else 3, twoloops=2, ops=1, hb=hb),
+         # the same, with every state change arriving only after the previous one was collected: the reaper
+         # is still inside its collection loop when the next one arrives and the owner is already reacting
+         mt_run('two-loops.reaper-elsewhere.paced', h,
+                ['wait.reaper-is-another-thread', 'wait.termination-delivered', 'wait.batch-of-several-statuses'],
+                preempt=1 if q else 2, C=3, strangers=0, events=2 if q else 3, twoloops=2, ops=0, unreg=0, worldwait=1,
+                hb=hb),
          # the owner unregisters an interest (an interior node of the shared tree) on its own while the
          # reaper thread may be collecting that very child
          mt_run('two-loops.spontaneous-unregister', h,
@@ -401,6 +431,10 @@ def work_runs(tier, hb=0):
                preempt=1 if q else 2, W=3, max=2, put=3, cont=1, burst=2, hb=hb),
         mt_run('continuation.owner-busy', h, base + ['work.continuation-from-worker', 'work.two-items-in-parallel'],
                preempt=3, W=3, max=2, put=3, cont=1, burst=2, gap=1, hb=hb),
+        # every work function submits the next item as a continuation: the only worker leaves its event handler
+        # with work queued round after round (its zero poll timeout repeats)
+        mt_run('continuation.chain', h, base + ['work.continuation-from-worker', 'work.pool-released'],
+               preempt=1 if q else 2, W=8, max=1, put=3, cont=2, burst=1, tfd=1, hb=hb),
         mt_run('saturated.max1', h, base + ['work.quiescent'], preempt=p2, W=3, max=1, put=0, hb=hb),
         mt_run('null-pool', h, ['work.loop-returned-and-everything-released'], preempt=0, W=2, nullpool=1, hb=hb),
         mt_run('iv_thread', h, ['thread.joined-and-released'], preempt=2 if q else 3, threadtest=1, hb=hb),
@@ -444,6 +478,9 @@ def c15_runs(tier):
     r.append(mt_run('eventfd-disappears.rawevent', 'harness/eventraw.c',
                     ['env.syscall-disappears-mid-run', 'raw.handler-ran', 'raw.quiescent'], preempt=1 if q else 2,
                     R=2, T=1, N=2, cfg=3))
+    r.append(mt_run('eventfd-disappears.raw-registered-again', 'harness/eventraw.c',
+                    ['raw.reregistered-after-eventfd-disappeared', 'raw.handler-ran', 'env.syscall-disappears-mid-run'],
+                    preempt=1 if q else 2, R=1, T=1, N=3, cfg=0, rereg=1, pipecap=2))
     r.append(mt_run('eventfd-missing.epoll-kick', 'harness/event.c', ['event.cross-thread-post-delivered'],
                     preempt=2, E=2, P=2, Q=1, method=1, noeventfd=1, hb=0))
     r.append(mt_run('eventfd-missing.rawevent-transport', 'harness/event.c', ['event.cross-thread-post-delivered'],
@@ -487,6 +524,8 @@ def c14_runs(tier):
     for m, nm in ((1, 'epoll'), (0, 'epoll-timerfd'), (3, 'poll')):
         allruns.append(mt_run('loops.' + nm, 'harness/loops_mt.c', ['loops.concurrent-init-run-deinit'],
                               preempt=2 if q else 3, threads=2, rounds=1 if q else 2, method=m))
+    allruns.append(mt_run('loops.each-starts-a-thread', 'harness/loops_mt.c', ['loops.concurrent-init-run-deinit'],
+                          preempt=1 if q else 2, threads=2, rounds=1, method=1, mainloop=0, withthread=1))
     allruns.append(mt_run('loops.method-switch-mid-run', 'harness/mswitch.c', ['mswitch.both-loops-completed'],
                           preempt=1 if q else 2, tfd=1, hb=1))
     if q:
@@ -494,7 +533,7 @@ def c14_runs(tier):
                 'threads.eventfd2', 'threads.pipe', 'signal.eventfd2', 'one-thread.I2', 'concurrent-forks', 'spawn+kill',
                 'two-loops.spawn-exits-at-once', 'two-loops.reaper-elsewhere', 'two-loops.spontaneous-unregister', 'burst.max1.put-after', 'burst.max2.put-after',
                 'chain.put-in-completion', 'idle-timeout.late-submit', 'continuation.put-late', 'iv_thread',
-                'loops.epoll', 'loops.epoll-timerfd', 'loops.poll', 'loops.method-switch-mid-run')
+                'loops.epoll', 'loops.epoll-timerfd', 'loops.poll', 'loops.method-switch-mid-run', 'loops.each-starts-a-thread')
         allruns = [x for x in allruns if x['name'] in keep]
     r = []
     for x in allruns:
